@@ -105,7 +105,7 @@ Proof.
     repeat split. intros Hn. exfalso. apply Hn. reflexivity.
   - cbn [edits_ok] in Hok. destruct Hok as (Hlo & Hp & Hwf & Hrest).
     destruct (IH w _ Hrest) as (H' & r' & E1 & E2 & E3 & E4 & E5).
-    set (p := epos e) in *. set (lo' := (p + 3 * k + 2)%nat) in *.
+    remember (epos e) as p eqn:Hpe. set (lo' := (p + 3 * k + 2)%nat) in *.
     assert (F1 : firstn p w = firstn lo w ++ firstn (p - lo) (skipn lo w)).
     { replace p with (lo + (p - lo))%nat at 1 by lia. apply r8_firstn_add. }
     assert (F2 : skipn lo w = firstn (p - lo) (skipn lo w) ++ skipn p w).
@@ -119,7 +119,7 @@ Proof.
     { intros i Hi. rewrite app_length, skipn_length, firstn_length. split; [lia|].
       intros Hr. assert (He : es <> []) by (intros ->; destruct r'; [apply Hr; reflexivity|discriminate]).
       specialize (E5 He). lia. }
-    rewrite apply_edits_cons, E2. cbn [length]. destruct e as [p0 c|p0 c|p0]; cbn [epos] in p; subst p0.
+    rewrite apply_edits_cons, E2. cbn [length]. destruct e as [p0 c|p0 c|p0]; cbn [epos] in Hpe; subst p0.
     + destruct Hwf as [Hc Hne].
       exists (firstn (p - lo) (skipn lo w)), (([nth p w 0], [c], skipn (S p) (firstn lo' w) ++ H') :: r').
       cbn [wtl stl length bok apply_edit]. split; [|split; [|split; [|split]]].
@@ -181,6 +181,161 @@ Proof.
     rewrite <- Z.mul_assoc. apply Z.mul_le_mono_nonneg_l; [lia|].
     apply Z.mul_le_mono_nonneg_r; lia.
 Qed.
+
+(* ========================================================================================== *)
+(* Part C: the scan over a block-form strand                                                   *)
+(* ========================================================================================== *)
+Section Multi.
+Variable k : nat.
+Variable X : vset.
+Hypothesis Hk : (1 <= k)%nat.
+Local Notation acc := (induced_on k X).
+
+(* scan_detect with an arbitrary current split *)
+Lemma scan_detect2 : forall s f l v iq cur sp ch mk d vis,
+  acgt s -> (k <= l)%nat -> (l + k + 1 <= length s)%nat -> vin k X v -> X (nx k v (nth l s 0)) = false ->
+  (k <= length cur + 1)%nat -> length iq = length s ->
+  scan_loop (S f) s acc (Z.of_nat k) (Z.of_nat l) v iq cur
+     {| sc_splits := sp; sc_chunks := ch; sc_markers := mk; sc_detected := d; sc_visited := vis |} =
+  scan_loop f s acc (Z.of_nat k) (Z.of_nat (l + k + 1)) (kval (firstn k (skipn (S l) s))) iq [nth (l + k) s 0]
+     {| sc_splits := firstn (length cur + 1 - k) cur :: sp;
+        sc_chunks := ch ++ [firstn (2 * k - 1) (skipn (l + 1 - k) s)];
+        sc_markers := mk ++ [firstn k (skipn (l - k) iq)];
+        sc_detected := d + 1; sc_visited := vis |}.
+Proof.
+  intros s f l v iq cur sp ch mk d vis Ha Hkl Hls Hv Hx Hcur Hiq.
+  rewrite scan_loop_step by lia.
+  rewrite (py_get_ok s (Z.of_nat l) 0) by lia. rewrite Nat2Z.id. cbn [bind].
+  rewrite (step_fail8 k X Hk v _ Hv (acgt_nth s l Ha ltac:(lia)) Hx).
+  cbn [bind sc_splits sc_chunks sc_markers sc_detected sc_visited].
+  replace (Z.of_nat l + 1) with (Z.of_nat (S l)) by lia.
+  replace (Z.of_nat l + Z.of_nat k + 1) with (Z.of_nat (l + k + 1)) by lia.
+  rewrite (r8_slice_nat s (S l) (l + k + 1)) by lia.
+  replace (l + k + 1 - S l)%nat with k by lia.
+  set (t := firstn k (skipn (S l) s)).
+  assert (Hat : acgt t) by (apply acgt_firstn, acgt_skipn; exact Ha).
+  rewrite (dna_int_kval t Hat). cbn [bind].
+  assert (Hlast : nuc_char (kval t mod 4) = nth (l + k) s 0).
+  { unfold t. replace k with (S (k - 1)) at 1 by lia.
+    rewrite (r8_firstn_S k Hk) by (rewrite skipn_length; lia).
+    rewrite kval_mod4, r8_nth_skipn. replace (S l + (k - 1))%nat with (l + k)%nat by lia.
+    apply idx_char. apply acgt_nth; [exact Ha|lia]. }
+  rewrite Hlast.
+  replace (Z.of_nat (length cur) - Z.of_nat k + 1) with (Z.of_nat (length cur + 1 - k)) by lia.
+  rewrite (r8_slice_to_nat cur (length cur + 1 - k)) by lia.
+  replace (Z.of_nat l - Z.of_nat k + 1) with (Z.of_nat (l + 1 - k)) by lia.
+  replace (Z.of_nat l + Z.of_nat k) with (Z.of_nat (l + k)) by lia.
+  rewrite (r8_slice_nat s (l + 1 - k) (l + k)) by lia.
+  replace (l + k - (l + 1 - k))%nat with (2 * k - 1)%nat by lia.
+  replace (Z.of_nat l - Z.of_nat k) with (Z.of_nat (l - k)) by lia.
+  rewrite (r8_slice_nat iq (l - k) l) by lia.
+  replace (l - (l - k))%nat with k by lia.
+  reflexivity.
+Qed.
+
+(* the record that restores w on the stretch around one edit *)
+Lemma restore_rec : forall v H B1 B2 A l recs n, vin k X v -> okw k X v (H ++ B1 ++ A) -> ekind B1 B2 ->
+  (k <= length H)%nat -> (2 * k <= length A)%nat -> (length H <= l)%nat -> (S l < length H + length B2 + k)%nat ->
+  path_matching (firstn (2 * k - 1) (skipn (l + 1 - k) (H ++ B2 ++ A))) acc (stt k v H)
+     (Z.of_nat k - Z.of_nat (l - length H) - 1) true = Ok (recs, n) ->
+  exists rc, In rc recs /\ snd rc = skipn (l + 1 - k) H ++ B1 ++ firstn (k + (l - length H) - length B2) A.
+Proof.
+  intros v H B1 B2 A l recs n Hv Hw Hek HkH HA H1 H2 Hp.
+  destruct (ekind_B2 B1 B2 Hek) as (_ & HlB2 & _).
+  destruct (chunk_split k Hk H B2 A l H1 H2 HlB2 HkH HA) as (E1 & E2 & _ & _).
+  rewrite E1, E2 in Hp. clear E1 E2.
+  set (r := (l - length H)%nat) in *. set (b := skipn (l + 1 - k) H) in *.
+  apply okw_app in Hw. destruct Hw as [HwH Hw2].
+  pose proof (okw_vin k X H v Hv HwH) as Hu.
+  destruct Hek as [a0 c Hc Hne|c Hc|a0]; cbn [length] in *.
+  - replace (k + r)%nat with (S (k + r - 1)) in Hp by lia. cbn [app firstn] in Hp.
+    cbn [app okw] in Hw2. destruct Hw2 as (Ha0 & Hx & HwC).
+    exists (0, a0, b ++ a0 :: firstn (k + r - 1) A). split; [|reflexivity].
+    apply (pm_sub k X Hk b c (firstn (k + r - 1) A) (stt k v H) a0 true recs n Hu Ha0 ltac:(congruence) Hx
+             (okw_firstn k X _ _ _ HwC) Hp).
+  - replace (k + r)%nat with (S (k + r - 1)) in Hp by lia. cbn [app firstn] in Hp.
+    cbn [app] in Hw2.
+    exists (2, c, b ++ firstn (k + r - 1) A). split; [|reflexivity].
+    apply (pm_ins k X Hk b c (firstn (k + r - 1) A) (stt k v H) recs n Hu (okw_firstn k X _ _ _ Hw2) Hp).
+  - destruct A as [|c0 A']; [cbn [length] in HA; lia|].
+    replace (k + r)%nat with (S (k + r - 1)) in Hp by lia. cbn [app firstn] in Hp.
+    cbn [app okw] in Hw2. destruct Hw2 as (Ha0 & Hx & HwC).
+    exists (1, a0, b ++ a0 :: c0 :: firstn (k + r - 1) A'). split.
+    + apply (pm_del k X Hk b c0 (firstn (k + r - 1) A') (stt k v H) a0 recs n Hu Ha0 Hx); [|exact Hp].
+      apply (okw_firstn k X (S (k + r - 1)) (c0 :: A') _ HwC).
+    + cbn [snd app]. replace (k + r - 0)%nat with (S (k + r - 1)) by lia. reflexivity.
+Qed.
+
+(* the marker recorded at a detection l = |P| + l' after scanning t (|t| = l') from position |P| *)
+Lemma marker_spec : forall (iq P : list Z) v t l', length t = l' -> (k <= l')%nat ->
+  (length P + l' <= length iq)%nat ->
+  let marker := firstn k (skipn (length P + l' - k) (fill k iq (length P) v t)) in
+  length marker = k /\ forall j, (j < k)%nat -> nth j marker 0 = stt k v (firstn (S (l' - k + j)) t).
+Proof.
+  intros iq P v t l' Ht Hkl Hiq marker. split.
+  - unfold marker. apply firstn_length_le. rewrite skipn_length, fill_length. lia.
+  - intros j Hj. unfold marker. rewrite r8_nth_firstn by exact Hj. rewrite r8_nth_skipn.
+    replace (length P + l' - k + j)%nat with (length P + (l' - k + j))%nat by lia.
+    apply (fill_nth k Hk); lia.
+Qed.
+
+(* a detection carries a fragment f that is found by fragments_of, and its fragment set is small *)
+Definition good (s : list Z) (t : det) : Prop :=
+  forall vis fs n, fragments_of (d_ch t) acc (Z.of_nat k) true s (rev (d_mk t)) 0 [] vis = Ok (fs, n) ->
+    In (d_f t) fs /\ (length fs <= 8 * k)%nat.
+
+Lemma good_block : forall s P v H B1 B2 A R l' l iq x, s = P ++ (H ++ B2 ++ A) ++ R -> acgt s -> vin k X v ->
+  okw k X v (H ++ B1 ++ A) -> ekind B1 B2 -> (k <= length H)%nat -> (2 * k <= length A)%nat ->
+  (length H <= l')%nat -> (S l' < length H + length B2 + k)%nat -> length iq = length s ->
+  l = (length P + l')%nat ->
+  good s {| d_ch := firstn (2 * k - 1) (skipn (l + 1 - k) s);
+            d_mk := firstn k (skipn (l - k) (fill k iq (length P) v (firstn l' (H ++ B2 ++ A))));
+            d_f := skipn (l' + 1 - k) H ++ B1 ++ firstn (k + (l' - length H) - length B2) A;
+            d_x := x |}.
+Proof.
+  intros s P v H B1 B2 A R l' l iq x Es Has Hv Hw Hek HkH HA H1 H2 Hiq ->.
+  destruct (ekind_B2 B1 B2 Hek) as (_ & HlB2 & _).
+  set (S1 := H ++ B2 ++ A) in *.
+  assert (HlS1 : length S1 = (length H + length B2 + length A)%nat) by (unfold S1; rewrite !app_length; lia).
+  assert (Hls : length s = (length P + length S1 + length R)%nat) by (rewrite Es, !app_length; lia).
+  unfold good. cbn [d_ch d_mk d_f].
+  set (t := firstn l' S1).
+  assert (Ht : length t = l') by (unfold t; apply firstn_length_le; lia).
+  assert (Echunk : firstn (2 * k - 1) (skipn (length P + l' + 1 - k) s) = firstn (2 * k - 1) (skipn (l' + 1 - k) S1)).
+  { rewrite Es. replace (length P + l' + 1 - k)%nat with (length P + (l' + 1 - k))%nat by lia.
+    rewrite m_skipn_pre_add. apply m_firstn_skipn_app_le. lia. }
+  rewrite Echunk. set (chunk := firstn (2 * k - 1) (skipn (l' + 1 - k) S1)).
+  destruct (marker_spec iq P v t l' Ht ltac:(lia) ltac:(lia)) as [Hlm Hnm]. cbv zeta in Hlm, Hnm.
+  set (marker := firstn k (skipn (length P + l' - k) (fill k iq (length P) v t))) in *.
+  assert (Hac : acgt chunk).
+  { unfold chunk. apply acgt_firstn, acgt_skipn. rewrite Es in Has. unfold acgt in *.
+    apply Forall_app in Has. destruct Has as [_ Has]. apply Forall_app in Has. apply Has. }
+  assert (Hlc : length chunk = (2 * k - 1)%nat).
+  { unfold chunk. apply firstn_length_le. rewrite skipn_length. lia. }
+  assert (Hrm : Forall (fun pv => 0 <= pv < pow4 k) (rev marker)).
+  { apply Forall_rev. apply Forall_forall. intros y Hy.
+    destruct (In_nth marker y 0 Hy) as (i & Hi & <-). rewrite Hlm in Hi. rewrite Hnm by exact Hi.
+    apply stt_range. apply Hv. }
+  intros vis fs n E.
+  destruct (fragments_of_spec k X Hk chunk (Z.of_nat k) true s Hac ltac:(lia) ltac:(lia) (rev marker) 0 [] vis fs n E Hrm
+              ltac:(lia) ltac:(rewrite rev_length; lia) ltac:(intros f [])) as (_ & I2 & I3).
+  split; [|rewrite rev_length, Hlm in I3; cbn [length] in I3; lia].
+  set (r := (l' - length H)%nat).
+  assert (Hnth : nth_error (rev marker) r = Some (stt k v H)).
+  { rewrite (nth_error_nth' (rev marker) 0) by (rewrite rev_length; lia). f_equal.
+    rewrite rev_nth by lia. rewrite Hlm. rewrite Hnm by lia.
+    replace (S (l' - k + (k - S r))) with (length H) by lia.
+    unfold t. rewrite firstn_firstn, Nat.min_l by lia. unfold S1. rewrite m_firstn_app_le by lia.
+    rewrite firstn_all. reflexivity. }
+  destruct (path_matching_total acc (acc_shaped k X) (acc_pos k X) chunk (stt k v H) (Z.of_nat k - Z.of_nat r - 1) true Hac
+              (range_vok k X Hk _ (stt_range k v H (proj1 Hv))) ltac:(lia)) as (recs & n2 & E2 & _).
+  destruct (restore_rec v H B1 B2 A l' recs n2 Hv Hw Hek HkH HA H1 H2 E2) as (rc & Hrc & Hsnd).
+  fold r in Hsnd. rewrite <- Hsnd.
+  apply (I2 r (stt k v H) recs n2 rc Hnth); [|exact Hrc].
+  replace (Z.of_nat k - (0 + Z.of_nat r) - 1) with (Z.of_nat k - Z.of_nat r - 1) by lia. exact E2.
+Qed.
+
+End Multi.
 
 (* TARGET STATEMENT (to be proved, do not change the statement):
 
